@@ -1,6 +1,8 @@
 import Driver.Util
+import Driver.Silmerge
 -- engines of work area Silence: import your Driver.<Engine> modules above and list them here
 namespace Driver.Reg.Silence
 def engines : List (String × IO UInt32) := [
+  ("silmerge", Driver.runEngine Driver.Silmerge.engine)
 ]
 end Driver.Reg.Silence
